@@ -27,6 +27,10 @@ pub enum Hist {
     Zero,
     /// decoded through compact bits after being wrapped in an option: Value::some(x).as_right()
     SomeInner,
+    /// a sum value whose payload is a sub-value cut out of a parent at the given bit offset (the
+    /// parent's other bits all equal the given fill) and wrapped again with Value::left / right:
+    /// the constructors reuse the payload's buffer when the bit in front of it already is the tag
+    Rewrap(usize, bool),
     /// output of the Bit Machine: the value is written into a frame that reuses a region filled
     /// with ones and is copied out by `iden`, so sum padding holds arbitrary bits
     MachineOutput,
@@ -34,8 +38,13 @@ pub enum Hist {
 
 pub fn all_hists() -> Vec<Hist> {
     let mut v = vec![Hist::Ctor, Hist::Compact, Hist::Padded(false), Hist::Padded(true)];
-    for r in 1..8 {
+    for r in [1, 2, 3, 4, 5, 6, 7, 8, 9, 16] {
         v.push(Hist::SubProdR(r));
+    }
+    for off in [3, 8, 16] {
+        for fill in [false, true] {
+            v.push(Hist::Rewrap(off, fill));
+        }
     }
     v.extend([Hist::SubProdL, Hist::SubSumL, Hist::SubSumR, Hist::Pruned, Hist::Zero, Hist::SomeInner, Hist::MachineOutput]);
     v
@@ -164,6 +173,23 @@ pub fn produce(t: &Rc<RT>, v: &Rc<RV>, h: &Hist) -> Result<Option<Value>, String
             let mut mac = simplicity::BitMachine::for_program(&prog).map_err(|e| e.to_string())?;
             let out = mac.exec(&prog, &simplicity::jet::CoreEnv::new()).map_err(|e| format!("machine failed: {e}"))?;
             Ok(Some(out))
+        }
+        Hist::Rewrap(off, fill) => {
+            let (payload, pt, other, left) = match (&**v, &**t) {
+                (RV::L(x), RT::Sum(a, b)) => (x.clone(), a.clone(), b.clone(), true),
+                (RV::R(x), RT::Sum(a, b)) => (x.clone(), b.clone(), a.clone(), false),
+                _ => return Ok(None),
+            };
+            // parent: off bits, the payload, one more bit; everything but the payload's data is `fill`
+            let big = RT::prod(&bits_type(*off), &RT::prod(&pt, &RT::bit()));
+            let mut bits = vec![*fill; *off];
+            bits.extend(payload.padded_fill(&pt, *fill));
+            bits.push(*fill);
+            let b = decode_padded(&big, &bits)?;
+            let (_, rest) = b.as_product().ok_or("as_product None on a product")?;
+            let (x, _) = rest.as_product().ok_or("as_product None on a product")?;
+            let sub = x.to_value();
+            Ok(Some(if left { Value::left(sub, other.to_final()) } else { Value::right(other.to_final(), sub) }))
         }
         Hist::SomeInner => {
             let s = Value::some(v.to_value(t));
